@@ -206,6 +206,11 @@ type a3 struct {
 	onCall          func(st *a3State, call *ast.CallExpr)
 	pendingLabel    string
 	probing         int
+	// local reporter closures: `report := func(..) { if f != nil { f(..) } }` —
+	// a function literal bound once to a local variable that performs a
+	// constant number of events per invocation and touches no counter; each
+	// call of the variable then counts as that many events.
+	localEvents map[types.Object]int
 }
 
 func newA3(c *Ctx, info *types.Info, mode a3Mode, rule, fnName string) *a3 {
@@ -530,6 +535,12 @@ func (a *a3) scanExpr(st *a3State, e ast.Node) {
 			if a.onCall != nil {
 				a.onCall(st, x)
 			}
+			if id, ok := ast.Unparen(x.Fun).(*ast.Ident); ok && a.localEvents != nil {
+				if k, ok := a.localEvents[a.info.Uses[id]]; ok {
+					a.eventSites++
+					a.event(st, k)
+				}
+			}
 			if a.isCallbackIdent(x.Fun) {
 				a.eventSites++
 				a.event(st, 1)
@@ -649,6 +660,45 @@ func (a *a3) funcLit(st *a3State, lit *ast.FuncLit, asCallback bool) bool {
 		st.E = linTop()
 	}
 	return false
+}
+
+// constantEvents: the literal performs the same constant number of events on
+// every exit and leaves every counter alone (so events-counter changes by
+// exactly that number).
+func (a *a3) constantEvents(st *a3State, lit *ast.FuncLit) (int, bool) {
+	probe := a3State{E: linConst(0), D: map[*types.Var]lin{}, nonnil: st.nonnil}
+	for v := range a.tracked {
+		probe.D[v] = linConst(0)
+	}
+	saveT, saveR := a.targets, a.closureReturns
+	a.targets, a.closureReturns = nil, nil
+	a.inClosure++
+	out := a.block(lit.Body.List, probe)
+	a.inClosure--
+	exits := a.closureReturns
+	a.targets, a.closureReturns = saveT, saveR
+	if !out.dead {
+		exits = append(exits, out)
+	}
+	if len(exits) == 0 {
+		return 0, false
+	}
+	k0, ok := exits[0].E.isConst()
+	if !ok {
+		return 0, false
+	}
+	for _, ex := range exits {
+		k, ok := ex.E.isConst()
+		if !ok || k != k0 {
+			return 0, false
+		}
+		for _, d := range ex.D {
+			if !d.eq(ex.E) {
+				return 0, false // touches a counter
+			}
+		}
+	}
+	return k0, true
 }
 
 func (a *a3) block(list []ast.Stmt, in a3State) a3State {
@@ -796,6 +846,21 @@ func (a *a3) stmt(s ast.Stmt, st a3State) a3State {
 			}
 		}
 	case *ast.AssignStmt:
+		if x.Tok == token.DEFINE && len(x.Lhs) == 1 && len(x.Rhs) == 1 {
+			if lit, ok := x.Rhs[0].(*ast.FuncLit); ok {
+				if id, ok := x.Lhs[0].(*ast.Ident); ok {
+					if obj := a.info.Defs[id]; obj != nil {
+						if k, ok := a.constantEvents(&st, lit); ok && k != 0 {
+							if a.localEvents == nil {
+								a.localEvents = map[types.Object]int{}
+							}
+							a.localEvents[obj] = k
+							return st
+						}
+					}
+				}
+			}
+		}
 		for _, r := range x.Rhs {
 			a.scanExpr(&st, r)
 		}
